@@ -193,7 +193,7 @@ func (w *World) Decls(indent string) string {
 		}
 		fmt.Fprintf(&sb, "%saccess(all) %s %s%s {\n", indent, kind, c.Name, conf)
 		if c.Resource {
-			fmt.Fprintf(&sb, "%s    access(all) event ResourceDestroyed(id: Int = self.id, n: Int = self.n)\n", indent)
+			fmt.Fprintf(&sb, "%s    access(all) event ResourceDestroyed(uuid: UInt64 = self.uuid, id: Int = self.id, n: Int = self.n)\n", indent)
 		}
 		for _, f := range c.Fields {
 			kw := "let"
